@@ -3,8 +3,10 @@ package v1
 import (
 	"bytes"
 	"crypto/rand"
+	"encoding/base64"
 	"errors"
 	"io"
+	"strconv"
 
 	"github.com/dapr/kit/zzverif"
 	"github.com/dapr/kit/zzverifstubs"
@@ -233,4 +235,55 @@ func VerifOptionsRoundtrip() {
 	zzverif.Assert(err == io.EOF, "decrypt_stream_ends_cleanly")
 	zzverif.Assert(len(out) == len(plain) && zzverif.EqBytes(out, plain), "roundtrip_exact")
 	zzverif.Cover("options_roundtrip_done")
+}
+
+// A document written by an independent implementation of the published format is accepted and decrypts to its
+// plaintext. The independent writer is the harness: it derives the header and payload keys with HKDF as the README
+// says, computes the MAC over "dapr.io/enc/v1\n" || manifest bytes || "\n" - over the manifest bytes AS WRITTEN -,
+// seals the single segment with nonce prefix || counter 0 || last flag. Its manifest bytes are its own encoding of
+// the manifest (symbolic runs: an opaque token the JSON stub parses to the manifest's fields; native replay: JSON with
+// the members in another order and extra white space than encoding/json would produce).
+//
+//verif:harness prop=C01 name=independent_document threads=3 sched=delay preempt=0 unwind=200 race=off witness=lenient
+func VerifIndependentDocument() {
+	zzverifstubs.Init()
+	vWires = nil
+	fileKeyB := zzverif.Bytes("file_key", 32)
+	np := zzverif.Bytes("nonce_prefix", 7)
+	ciph := []Cipher{CipherAESGCM, CipherChaCha20Poly1305}[zzverif.Choose("cipher", 2)]
+	plain := zzverif.Bytes("plaintext", zzverif.Choose("plaintext_len", 3))
+	wfk := make([]byte, 32)
+	for i := range wfk {
+		wfk[i] = fileKeyB[i] ^ 0xA5
+	}
+	var manifest []byte
+	if zzverif.Symbolic() {
+		manifest = []byte("{x}") // not a token encoding/json (the stub) ever produced
+		vWires = append(vWires, vWire{tok: manifest, k: "key", kw: KeyAlgorithmAES256KW.ID(), cph: ciph.ID(), wfk: wfk, np: np})
+	} else {
+		manifest = []byte(`{ "np":"` + base64.StdEncoding.EncodeToString(np) + `", "cph":` + strconv.Itoa(ciph.ID()) +
+			`, "wfk":"` + base64.StdEncoding.EncodeToString(wfk) + `", "kw":1, "k":"key" }`)
+	}
+	msg := append(append([]byte("dapr.io/enc/v1\n"), manifest...), '\n')
+	mac := vHMAC(vHKDF(fileKeyB, nil, []byte("header")), msg)
+	b64 := make([]byte, base64.StdEncoding.EncodedLen(32))
+	base64.StdEncoding.Encode(b64, mac)
+	doc := append(append(append([]byte{}, msg...), b64...), '\n')
+	if len(plain) > 0 {
+		nonce := append(append([]byte{}, np...), 0, 0, 0, 0, 1)
+		doc = append(doc, vSeal(ciph, vHKDF(fileKeyB, np, []byte("payload")), nonce, plain)...)
+	}
+	unwrapFn := func(wrapped []byte, alg string, name string, nonce, tag []byte) ([]byte, error) {
+		k := make([]byte, len(wrapped))
+		for i := range wrapped {
+			k[i] = wrapped[i] ^ 0xA5
+		}
+		return k, nil
+	}
+	dec, err := Decrypt(bytes.NewReader(doc), DecryptOptions{UnwrapKeyFn: unwrapFn})
+	zzverif.Assert(err == nil, "independent_document_accepted")
+	out, err := vReadAll(dec, 4, 8)
+	zzverif.Assert(err == io.EOF, "independent_document_ends_cleanly")
+	zzverif.Assert(len(out) == len(plain) && zzverif.EqBytes(out, plain), "independent_document_decrypts_to_its_plaintext")
+	zzverif.Cover("independent_document_done")
 }
